@@ -161,12 +161,10 @@ SpawnKids(a) ==
                   /\ ExStep(a, [e EXCEPT !.pc = "afterstarted"])
           /\ UNCHANGED <<reg, children, spawned>>
      ELSE LET c == Head(e.todo) IN
-          IF reg[c]
-          THEN \* duplicate id: no second process; the map entry is overwritten with an equal PID
-               /\ events' = Append(events, Ev("DuplicateId", c, 0))
-               /\ children' = [children EXCEPT ![a] = @ \cup {c}]
+          IF c \in spawned
+          THEN \* the scripted Started handler spawns each child once (first incarnation); duplicate ids are Registry.tla's subject
                /\ ExStep(a, [e EXCEPT !.todo = Tail(@)])
-               /\ UNCHANGED <<reg, faults, spawned>>
+               /\ UNCHANGED <<reg, children, faults, spawned, events>>
           ELSE /\ reg' = [reg EXCEPT ![c] = TRUE]
                /\ spawned' = spawned \cup {c}
                /\ Alive
